@@ -3,15 +3,15 @@ ENGINES = [
     dict(name="jsonrt", path="harness/jsonrt", serves_properties=["C07"], kind_free_text="rapid generators + reference transform for EEBUS JSON"),
     dict(name="shipsim", path="harness/shipsim", serves_properties=["C01", "C03", "C04", "C06", "C07", "C08", "C09", "C11", "C14"],
          kind_free_text="two real ShipConnections + man-in-the-middle transport inside a testing/synctest bubble (virtual clock); rapid-generated scripts, JSON replay"),
-    dict(name="wsfault", path="harness/wsfault", serves_properties=["C12", "C13"],
+    dict(name="wsfault", path="harness/wsfault", serves_properties=["C06", "C08", "C12", "C13", "C20"],
          kind_free_text="real ws.WebsocketConnection over gorilla/websocket over an in-memory fault-injecting net.Conn pair, synctest bubble"),
-    dict(name="hubnet", path="harness/hubnet", serves_properties=["C05", "C10", "C11", "C15", "C20"],
+    dict(name="hubnet", path="harness/hubnet", serves_properties=["C01", "C05", "C09", "C10", "C11", "C15", "C17", "C20"],
          kind_free_text="2-3 real hub.Hub instances over loopback TLS+websocket, real MdnsManager on a harness mDNS fabric, per-pair TCP proxies; real time"),
     dict(name="hubsim", path="harness/hubsim", serves_properties=["C18"],
          kind_free_text="real hub.Hub inside a synctest bubble, harness plays the SHIP connections"),
     dict(name="certid", path="harness/certid", serves_properties=["C02"],
          kind_free_text="adversarial TLS/websocket client and server with generated certificates against a real started hub"),
-    dict(name="mdnssim", path="harness/mdnssim", serves_properties=["C16", "C17", "C19", "C20"],
+    dict(name="mdnssim", path="harness/mdnssim", serves_properties=["C08", "C16", "C17", "C19", "C20"],
          kind_free_text="real MdnsManager with fake provider / real AvahiProvider with a fake Avahi daemon / real hub as report sink, synctest bubble"),
 ]
 
@@ -22,7 +22,8 @@ _TB = ("trusted: the in-memory transport mirrors ws.WebsocketConnection towards 
 META = {
     "C01": dict(engine="shipsim", design_ref="DESIGN.md 6/C01", note=_TB,
                 text="Generated adversarial histories (messages, timeouts, user actions, faults) against two real endpoints; invariant over the ordered "
-                     "callback log that no trusted state, setup or payload occurs before local trust. Exploration: held on all generated histories.",
+                     "callback log that no trusted state, setup or payload occurs before local trust; plus a hub-level run in which a real peer keeps "
+                     "knocking while the user registers / cancels / unregisters. Exploration: held on all generated histories.",
                 technique=_PBT + "generated event histories, invariant over the callback history"),
     "C03": dict(engine="shipsim", design_ref="DESIGN.md 6/C03", note=_TB,
                 text="Generated schedules (delivery order, user approve/cancel position, timer expiries, close propagation) over two real endpoints "
@@ -33,7 +34,8 @@ META = {
                      "specification edge table, phase order and finality clauses. Exploration.",
                 technique=_PBT + "reference-model (state graph) conformance over generated histories with fault injection"),
     "C06": dict(engine="shipsim", design_ref="DESIGN.md 6/C06", note=_TB,
-                text="Generated arrival interleavings of SPINE data frames with the remaining handshake; reader log must equal the arrival sequence.",
+                text="Generated arrival interleavings of SPINE data frames with the remaining handshake (incl. bursts and floods); reader log must equal the "
+                     "arrival sequence; plus a full-stack run (SHIP over the real websocket layer, slow receivers).",
                 technique=_PBT + "history invariant (exactly-once, ordered, after completion)"),
     "C07": dict(engine="jsonrt", design_ref="DESIGN.md 6/C07",
                 note="trusted: Go's encoding/json tokenizer used by the harness tree parser; duplicate member names not generated",
@@ -41,12 +43,13 @@ META = {
                      "and an end-to-end envelope check through two real endpoints; exploration, no absence proof.",
                 technique=_PBT + "round trip + reference-model shape oracle"),
     "C08": dict(engine="shipsim", design_ref="DESIGN.md 6/C08", note=_TB + "; deadlocks are shown by two identical stack dumps of a blocked ship-go goroutine",
-                text="Structured mutations and arbitrary bytes delivered in every handshake state reachable by a valid prefix, both roles; "
-                     "no panic, no wedge. Exploration (ship level; websocket and mDNS inputs are separate runs of this check).",
+                text="Structured mutations and arbitrary bytes delivered in every handshake state reachable by a valid prefix, both roles; arbitrary "
+                     "websocket frames and raw bytes into a live connection; hostile TXT records, names, addresses and ports through both mDNS entry "
+                     "paths; no panic, no wedge, no receive loop blocked for more than a virtual minute. Thorough tier adds coverage-guided native fuzzing.",
                 technique=_PBT + "structure-aware mutation fuzzing of SHIP messages per reachable state; crash/wedge oracle"),
     "C09": dict(engine="shipsim", design_ref="DESIGN.md 6/C09", note=_TB,
                 text="Generated (stored, presented) SHIP ID pairs and message orders in the access-methods phase; oracle on final state and "
-                     "order/count of ship-id report vs setup.",
+                     "order/count of ship-id report vs setup; plus a hub-level run (stored id none/correct/wrong x who dials on two real hubs).",
                 technique=_PBT + "generated input pairs and orders, outcome oracle"),
     "C11": dict(engine="shipsim", design_ref="DESIGN.md 6/C11", note=_TB,
                 text="Generated combinations and orders of close causes on two real endpoints; HandleConnectionClosed exactly once per connection.",
@@ -73,7 +76,7 @@ META.update({
                 technique=_PBT + "round trip through the library's own parser + reference parser for the QR format"),
     "C17": dict(engine="mdnssim", design_ref="DESIGN.md 6/C17", note="trusted: fake provider delivers resolver callbacks the way avahi/zeroconf providers do",
                 text="Model-based: generated resolver histories against a reference entry map, checked after every event; final report equals final set "
-                     "under bursts and GOMAXPROCS 1/2/16.",
+                     "under bursts, slow applications and GOMAXPROCS 1/2/16; plus a hub-level run comparing the managers' views with what the fabric reported.",
                 technique=_PBT + "model-based (reference map) over generated event histories and scheduler settings"),
     "C19": dict(engine="mdnssim", design_ref="DESIGN.md 6/C19", note="trusted: fake Avahi daemon (availability, object invalidation, Disconnected also on Shutdown())",
                 text="Model-based: generated daemon fault / API call histories on the virtual clock against the model (desired announcement, shutdown flag).",
